@@ -155,12 +155,13 @@ CHECKS["C09"] = dict(
               "are symbol-identity checks (no SMT query arises); concrete twin for the text layer",
     ref="5/C09")
 CHECKS["C20"] = dict(
-    text="LinearGaussianBayesianNetwork.to_joint_gaussian and predict, and GaussianDistribution.marginalize/reduce/copy, run with symbolic intercepts, "
+    text="LinearGaussianBayesianNetwork.to_joint_gaussian and predict, GaussianDistribution.marginalize/reduce/copy/to_canonical_factor and "
+         "CanonicalDistribution.product (K and h added by variable name over the union scope) run with symbolic intercepts, "
          "coefficients, positive variances and observed values on every DAG with <=3 nodes and every observed/missing split; numpy's inverse is replaced "
          "by symbolic Gauss-Jordan elimination. Results are compared entry-wise (identities of rational functions) with an independent oracle: means by "
          "recursive substitution, covariances by the structural-equation recursion, conditionals through a cofactor inverse.",
-    note="Partial: fit (least squares via sklearn), simulate, pdf values, canonical-form conversion/product, LAPACK itself and the 8-decimal rounding are "
-         "outside. Bounds: <=3 nodes (4 thorough).", ref="5/C20")
+    note="Partial: fit (least squares via sklearn), simulate, pdf values, canonical marginalise/reduce, LAPACK itself and the 8-decimal rounding are "
+         "outside; in the canonical constant g log and sqrt(det) are uninterpreted. Bounds: <=3 nodes (4 thorough).", ref="5/C20")
 
 CHECKS["C19"] = dict(
     text="pgmpy's own part of the discrete tests - argument handling, stratification by the conditioning variables, construction of each stratum's "
